@@ -82,7 +82,10 @@ def _n_sites(repo, module, cls, fn, pc, depth=2):
                 callee = sym.target if sym is not None and sym.kind == "func" and sym.module is module else None
             if callee is not None and callee.name not in seen and d > 0:
                 seen.add(callee.name)
-                n += sum(1 for x in astq.walk_no_nested(callee) if isinstance(x, ast.Raise))
+                raises_ = [x for x in astq.walk_no_nested(callee) if isinstance(x, ast.Raise)]
+                if any("NotImplementedError" in ast.unparse(x) for x in raises_):
+                    continue  # an abstract stub: the call dispatches to an override, it is not a rejection of this validator
+                n += len(raises_)
                 work.append((callee, d - 1))
     return n
 
@@ -154,7 +157,11 @@ def check_forecasters(ctx, repo):
     got = _direct_raises(pc)
     ats = atoms_of(got)
     N = _pick(ats, lambda a: a == "isnone(self.forecasters)")
-    E = _pick(ats, lambda a: a == "eq(len(self.forecasters), 0)")
+    E = _pick(ats, lambda a: a.startswith(("eq(len(self.forecasters), ", "lt(len(self.forecasters), ")))
+    if E is not None and E != "eq(len(self.forecasters), 0)" and E != "lt(len(self.forecasters), 1)":
+        ctx.violation("R2", "_check_forecasters:predicate", "the emptiness test is `%s`: exactly the empty list must be rejected here (a composite "
+                      "with one member is well-formed)" % E, loc, witness={"forecasters": "[('a', NaiveForecaster())]"})
+        return
     L = _pick(ats, lambda a: a == "isinstance(self.forecasters, list)")
     ANY = _pick(ats, lambda a: a.startswith("any(") and "NotIn()" in a and "value='drop'" in a and "value=None" in a)
     LOOP = _pick(ats, lambda a: a.startswith("loop#"))
@@ -801,6 +808,22 @@ def check_names_callers(ctx, repo, rule="R2"):
     ctx.count("check_names_callers", n)
 
 
+def check_reducer_settings(ctx, repo, flow):
+    """_Reducer.fit validates both integer settings on every path, each applied to its own constructor parameter."""
+    from ..flow import name_pred
+    cls = repo.cls(REDUCE + ":_Reducer")
+    fn = cls.methods.get("fit")
+    if fn is None:
+        raise AnalysisError("anchor missing: _Reducer.fit")
+    for vname, attr in (("check_step_length", "step_length"), ("check_window_length", "window_length")):
+        ok = flow.must_call(fn, name_pred(vname), cls.module, cls, cls)
+        subj = [c for c in astq.calls(fn) if astq.call_name(c) == vname]
+        good = bool(ok) and bool(subj) and all(c.args and dotted(c.args[0]) == "self." + attr for c in subj)
+        ctx.check(good, "R1", "_Reducer.fit:%s" % vname, "%s(self.%s) on every path of fit" % (vname, attr),
+                  "_Reducer.fit can complete without %s(self.%s): a zero / negative / fractional `%s` is accepted and the forecaster "
+                  "becomes fitted" % (vname, attr, attr), ctx.loc(cls.module, fn), witness={attr: 0})
+
+
 def run_all(ctx, repo):
     check_fh_init(ctx, repo)
     check_names_callers(ctx, repo)
@@ -817,3 +840,5 @@ def run_all(ctx, repo):
     check_naive_settings(ctx, repo)
     check_reduce_guard(ctx, repo)
     check_data_binding(ctx, repo)
+    from ..flow import Flow
+    check_reducer_settings(ctx, repo, Flow(repo))
